@@ -194,8 +194,7 @@ func (h *Session) Parse(p []byte) (frame Frame, err error) {
 		// If we don't have this, then we received all sent and forwarded packets with client IPs containing our host mac
 		if !bytes.Equal(frame.SrcAddr.MAC, h.NICInfo.HostAddr4.MAC) && frame.Session.NICInfo.HomeLAN4.Contains(frame.SrcAddr.IP) {
 			frame.Host, _ = frame.Session.findOrCreateHostWithLock(frame.SrcAddr) // will lock/unlock
-			if !frame.Host.Online {
-				frame.Session.onlineTransition(frame.Host)
+			if frame.Session.checkOnlineTransition(frame.Host) {
 				frame.flags = frame.markOnlineTransition()
 			}
 		}
@@ -227,8 +226,7 @@ func (h *Session) Parse(p []byte) (frame Frame, err error) {
 			(frame.SrcAddr.IP.IsLinkLocalUnicast() ||
 				(frame.SrcAddr.IP.IsGlobalUnicast() && !bytes.Equal(frame.SrcAddr.MAC, frame.Session.NICInfo.RouterAddr4.MAC))) {
 			frame.Host, _ = frame.Session.findOrCreateHostWithLock(frame.SrcAddr) // will lock/unlock
-			if !frame.Host.Online {
-				frame.Session.onlineTransition(frame.Host)
+			if frame.Session.checkOnlineTransition(frame.Host) {
 				frame.flags = frame.markOnlineTransition()
 			}
 		}
@@ -251,8 +249,7 @@ func (h *Session) Parse(p []byte) (frame Frame, err error) {
 			frame.Session.NICInfo.HomeLAN4.Contains(srcIP) {
 			addr := Addr{MAC: net.HardwareAddr(arp[8:14]), IP: srcIP}    // use arp src mac and ip for lookup
 			frame.Host, _ = frame.Session.findOrCreateHostWithLock(addr) // will lock/unlock
-			if !frame.Host.Online {
-				frame.Session.onlineTransition(frame.Host)
+			if frame.Session.checkOnlineTransition(frame.Host) {
 				frame.flags = frame.markOnlineTransition()
 			}
 		}
@@ -412,6 +409,20 @@ func (h *Session) Parse(p []byte) (frame Frame, err error) {
 	return frame, nil
 }
 
+// checkOnlineTransition makes the online transition of an offline host under the row lock.
+// It reports whether the host was offline.
+func (h *Session) checkOnlineTransition(host *Host) bool {
+	host.MACEntry.Row.Lock()
+	defer host.MACEntry.Row.Unlock()
+	if host.Online {
+		return false
+	}
+	h.onlineTransition(host)
+	return true
+}
+
+// onlineTransition sets the host online and its mac entry's previous IPv4 offline.
+// The caller must hold the row lock.
 func (h *Session) onlineTransition(host *Host) {
 	if host.Online {
 		return
